@@ -53,7 +53,19 @@ Inductive hpc :=
                            protocol is not yet stopped: another call can acquire it and queue a request *)
 | HDead.                (* recvLoop returned; doneChan closed *)
 
+(* the optional callbacks of blockfetch.Config that the client logic looks at *)
+Record config := {
+  cfg_block : bool;   (* config.BlockFunc != nil *)
+  cfg_raw : bool;     (* config.BlockRawFunc != nil (takes precedence in the callback) *)
+  cfg_done : bool     (* config.BatchDoneFunc != nil *)
+}.
+(* what BlockRawFunc is shown for a block that does not decode (raw mode without BlockFunc never decodes) *)
+(* every optional callback configured (BlockFunc + BatchDoneFunc) *)
+Definition cfg_all : config := {| cfg_block := true; cfg_raw := false; cfg_done := true |}.
+Definition rawnone : blk := {| bslot := 0; bhash := [] |}.
+
 Record st := {
+  cfg : config;           (* constant *)
   todo : list call;       (* the client program: API calls still to be made *)
   pc : cpc;
   hp : hpc;
@@ -103,28 +115,28 @@ Definition is_range (c : call) := match c with GetRange _ _ => true | _ => false
 
 (* record update helpers *)
 Definition upd (s : st) (pc' : cpc) (hp' : hpc) : st :=
-  {| todo := todo s; pc := pc'; hp := hp'; srv := srv s; pst := pst s; busy := busy s; usecb := usecb s;
+  {| cfg := cfg s; todo := todo s; pc := pc'; hp := hp'; srv := srv s; pst := pst s; busy := busy s; usecb := usecb s;
      watch := watch s; stopped := stopped s; wire := wire s; cblog := cblog s; rets := rets s;
      got := got s; cbbase := cbbase s |}.
 Definition set_busy (s : st) (b w : bool) : st :=
-  {| todo := todo s; pc := pc s; hp := hp s; srv := srv s; pst := pst s; busy := b; usecb := usecb s;
+  {| cfg := cfg s; todo := todo s; pc := pc s; hp := hp s; srv := srv s; pst := pst s; busy := b; usecb := usecb s;
      watch := w; stopped := stopped s; wire := wire s; cblog := cblog s; rets := rets s;
      got := got s; cbbase := cbbase s |}.
 Definition set_stopped (s : st) : st :=
-  {| todo := todo s; pc := pc s; hp := hp s; srv := srv s; pst := pst s; busy := busy s; usecb := usecb s;
+  {| cfg := cfg s; todo := todo s; pc := pc s; hp := hp s; srv := srv s; pst := pst s; busy := busy s; usecb := usecb s;
      watch := watch s; stopped := true; wire := wire s; cblog := cblog s; rets := rets s;
      got := got s; cbbase := cbbase s |}.
 Definition set_pst (s : st) (q : pstate) : st :=
-  {| todo := todo s; pc := pc s; hp := hp s; srv := srv s; pst := q; busy := busy s; usecb := usecb s;
+  {| cfg := cfg s; todo := todo s; pc := pc s; hp := hp s; srv := srv s; pst := q; busy := busy s; usecb := usecb s;
      watch := watch s; stopped := stopped s; wire := wire s; cblog := cblog s; rets := rets s;
      got := got s; cbbase := cbbase s |}.
 Definition add_cb (s : st) (e : cbev) : st :=
-  {| todo := todo s; pc := pc s; hp := hp s; srv := srv s; pst := pst s; busy := busy s; usecb := usecb s;
+  {| cfg := cfg s; todo := todo s; pc := pc s; hp := hp s; srv := srv s; pst := pst s; busy := busy s; usecb := usecb s;
      watch := watch s; stopped := stopped s; wire := wire s; cblog := cblog s ++ [e]; rets := rets s;
      got := got s; cbbase := cbbase s |}.
 (* recvLoop takes message m (tail r); accepted messages are recorded in got *)
 Definition take (s : st) (r : list smsg) (g : list smsg) : st :=
-  {| todo := todo s; pc := pc s; hp := hp s; srv := r; pst := pst s; busy := busy s; usecb := usecb s;
+  {| cfg := cfg s; todo := todo s; pc := pc s; hp := hp s; srv := r; pst := pst s; busy := busy s; usecb := usecb s;
      watch := watch s; stopped := stopped s; wire := wire s; cblog := cblog s; rets := rets s;
      got := g; cbbase := cbbase s |}.
 
@@ -138,10 +150,25 @@ Definition deliver (s : st) (m : smsg) (r : list smsg) : st :=
   | PBusy, StartBatch => upd (set_pst s1 PStreaming) (pc s) HStart
   | PBusy, NoBlocks => upd (set_pst s1 PIdle) (pc s) HNoBlocks
   | PStreaming, Block None =>
-      (* cbor/ledger decode error: callback mode releases busy, the error ends the protocol *)
-      if usecb s then upd (set_busy s1 false false) (pc s) HFail else die s1
-  | PStreaming, Block (Some b) => upd s1 (pc s) (if usecb s then HCbBlock b else HBlockChan b)
-  | PStreaming, BatchDone => upd (set_pst s1 PIdle) (pc s) (if usecb s then HCbDone else HDoneChan)
+      if usecb s then
+        (* callback mode decodes only when BlockFunc is configured; a decode error (and "no
+           callback function is defined") releases busy, then the error ends the protocol;
+           BlockRawFunc alone is handed the raw bytes whatever they are *)
+        if cfg_block (cfg s) then upd (set_busy s1 false false) (pc s) HFail
+        else if cfg_raw (cfg s) then upd s1 (pc s) (HCbBlock rawnone)
+        else upd (set_busy s1 false false) (pc s) HFail
+      else die s1   (* GetBlock mode always decodes: the error ends the protocol *)
+  | PStreaming, Block (Some b) =>
+      if usecb s then
+        if cfg_block (cfg s) || cfg_raw (cfg s) then upd s1 (pc s) (HCbBlock b)
+        else upd (set_busy s1 false false) (pc s) HFail   (* no callback function is defined *)
+      else upd s1 (pc s) (HBlockChan b)
+  | PStreaming, BatchDone =>
+      if usecb s then
+        (* BatchDoneFunc only if configured; releaseCurrentBusy() in either case *)
+        if cfg_done (cfg s) then upd (set_pst s1 PIdle) (pc s) HCbDone
+        else upd (set_busy (set_pst s1 PIdle) false false) (pc s) HIdle
+      else upd (set_pst s1 PIdle) (pc s) HDoneChan
   | _, _ => die (take s r (got s))   (* message not allowed in this state *)
   end.
 
@@ -154,7 +181,7 @@ Definition step (s : st) (l : label) : option st :=
       match pc s, todo s with
       | CIdle, c' :: t =>
           if call_eqb c c' then
-            Some {| todo := t; pc := CLock c'; hp := hp s; srv := srv s; pst := pst s; busy := busy s; usecb := usecb s;
+            Some {| cfg := cfg s; todo := t; pc := CLock c'; hp := hp s; srv := srv s; pst := pst s; busy := busy s; usecb := usecb s;
                     watch := watch s; stopped := stopped s; wire := wire s; cblog := cblog s; rets := rets s;
                     got := got s; cbbase := cbbase s |}
           else None
@@ -164,7 +191,7 @@ Definition step (s : st) (l : label) : option st :=
       match pc s with
       | CLock c =>
           if busy s then None else
-          Some {| todo := todo s; pc := CSend c; hp := hp s; srv := srv s; pst := pst s; busy := true;
+          Some {| cfg := cfg s; todo := todo s; pc := CSend c; hp := hp s; srv := srv s; pst := pst s; busy := true;
                   usecb := is_range c; watch := false; stopped := stopped s; wire := wire s; cblog := cblog s;
                   rets := rets s; got := []; cbbase := cblog s |}
       | _ => None
@@ -173,7 +200,7 @@ Definition step (s : st) (l : label) : option st :=
       match pc s, pst s with
       | CSend c, PIdle =>
           if negb (stopped s) && call_eqb c' c then
-            Some {| todo := todo s; pc := CWaitStart c; hp := hp s; srv := srv s; pst := PBusy; busy := busy s;
+            Some {| cfg := cfg s; todo := todo s; pc := CWaitStart c; hp := hp s; srv := srv s; pst := PBusy; busy := busy s;
                     usecb := usecb s; watch := watch s; stopped := stopped s; wire := wire s ++ [c]; cblog := cblog s;
                     rets := rets s; got := got s; cbbase := cbbase s |}
           else None
@@ -265,7 +292,7 @@ Definition step (s : st) (l : label) : option st :=
       match pc s with
       | CRet c r =>
           if call_eqb c' c && result_eqb r' r then
-            Some {| todo := todo s; pc := CIdle; hp := hp s; srv := srv s; pst := pst s; busy := busy s; usecb := usecb s;
+            Some {| cfg := cfg s; todo := todo s; pc := CIdle; hp := hp s; srv := srv s; pst := pst s; busy := busy s; usecb := usecb s;
                     watch := watch s; stopped := stopped s; wire := wire s; cblog := cblog s;
                     rets := rets s ++ [(c, got s, r)]; got := got s; cbbase := cbbase s |}
           else None
@@ -318,8 +345,8 @@ Fixpoint settle (fuel : nat) (s : st) : st :=
 
 End Variant.
 
-Definition init (prog : list call) (script : list smsg) : st :=
-  {| todo := prog; pc := CIdle; hp := HIdle; srv := script; pst := PIdle; busy := false; usecb := false;
+Definition init (c : config) (prog : list call) (script : list smsg) : st :=
+  {| cfg := c; todo := prog; pc := CIdle; hp := HIdle; srv := script; pst := PIdle; busy := false; usecb := false;
      watch := false; stopped := false; wire := []; cblog := []; rets := []; got := []; cbbase := [] |}.
 
 (* is the API caller blocked or is there work left? *)
@@ -338,7 +365,7 @@ Definition stuck (fx : bool) (s : st) : bool :=
 (* correspondence: an observed history is (program, server script, observable events);
    the model (of the FIXED code) must accept the events in the recorded order
    and then be quiescent with nothing pending *)
-Record case := { c_prog : list call; c_script : list smsg; c_obs : list label; c_hung : bool }.
+Record case := { c_cfg : config; c_prog : list call; c_script : list smsg; c_obs : list label; c_hung : bool }.
 
 (* Linearisation.  Every observation except "wire" is logged by the goroutine that performs
    the step, at the step.  The "wire" observation is logged by the PEER when it has read the
@@ -361,7 +388,7 @@ Fixpoint replay (s : st) (seenw : nat) (obs : list label) : option st :=
   end.
 
 Definition check_case (c : case) : bool :=
-  match replay (init (c_prog c) (c_script c)) 0 (c_obs c) with
+  match replay (init (c_cfg c) (c_prog c) (c_script c)) 0 (c_obs c) with
   | None => false
   | Some s =>
       let s' := settle true (64 + 4 * length (c_script c)) s in
